@@ -219,14 +219,15 @@ func (f *c20Final) probeRes(p int) [2]int {
 }
 
 type c20Thread struct {
-	c     int
-	state int // 0 not started, 1 running, 2 at gate, 3 finished
-	gate  c20Arrival
-	reply chan c20Reply
-	last  int // index of the event whose value is completed at the next arrival (-1 none)
-	lastS int // index of the script entry of that event
-	res   [2]int
-	nops  int
+	c       int
+	state   int // 0 not started, 1 running, 2 at gate, 3 finished
+	gate    c20Arrival
+	reply   chan c20Reply
+	last    int    // index of the event whose value is completed at the next arrival (-1 none)
+	lastS   int    // index of the script entry of that event
+	ordered [2]int // (account, account of the signing key) of the thread's last accepted order, from the CA's log
+	res     [2]int
+	nops    int
 }
 
 // chooser picks the next action among the enabled ones.
@@ -611,6 +612,14 @@ func (r *c20Run) await(t int) error {
 					switch {
 					case q.Status == 201:
 						ev.V = 0
+						// the account this order was placed under, as the CA saw it: kid, and the
+						// account whose key signed the request (not what the client says it used)
+						th.ordered = [2]int{c20AcctIdx(q.Account), 0}
+						for _, a := range r.env.cas[ev.KC].Accounts() {
+							if a.Thumbprint == q.Thumbprint {
+								th.ordered[1] = a.ID
+							}
+						}
 					case strings.HasSuffix(q.Problem, "accountDoesNotExist"):
 						ev.V = 1
 					default:
@@ -625,8 +634,11 @@ func (r *c20Run) await(t int) error {
 			if a.err == nil && r.kp != nil {
 				th.res = a.res
 			} else if a.err == nil {
-				i := c20AcctIdx(a.acctURL)
-				th.res = [2]int{i, i}
+				// judged by what the CA saw; the client's own report (certificate metadata) is only compared
+				th.res = th.ordered
+				if i := c20AcctIdx(a.acctURL); i != th.ordered[0] && c20NameBad == "" {
+					c20NameBad = fmt.Sprintf("issued certificate reports account %d, the CA took the order under account %d", i, th.ordered[0])
+				}
 			} else if strings.HasPrefix(a.err.Error(), "PANIC") {
 				return a.err
 			}
@@ -758,7 +770,7 @@ func c20RunHist(env *c20Env, email string, cas []int, choose c20Chooser, maxStep
 			if _, busy := r.held[g.key]; g.kind == c20KLock && !a.F && busy {
 				return (fmt.Errorf("c20 harness: Lock step while the lock is held"))
 			}
-			if g.kind == c20KUnlock {
+			if g.kind == c20KUnlock && r.kp != nil {
 				a.F = false
 				r.script[len(r.script)-1].F = false
 			}
@@ -1095,6 +1107,7 @@ type c20Shape struct {
 
 func c20Random(rr *rand.Rand, sh c20Shape) c20Chooser {
 	faults, crashes, resets := 0, 0, 0
+	unlockFault := false
 	return func(enabled []c20Action, ths []*c20Thread, holder int) (c20Action, bool) {
 		active := 0
 		allEarlierDone := true
@@ -1157,12 +1170,19 @@ func c20Random(rr *rand.Rand, sh c20Shape) c20Chooser {
 		default:
 			a = cand[rr.Intn(len(cand))]
 		}
-		if a.K == "step" && faults < sh.maxFaults && rr.Float64() < sh.pFault && ths[a.T].gate.kind != c20KUnlock {
+		pf := sh.pFault
+		if a.K == "step" && ths[a.T].gate.kind == c20KOrder && pf > 0 {
+			pf = 3*pf + 0.1 // the CA's answers to newOrder / finalize are a fault point of their own
+		}
+		if a.K == "step" && faults < sh.maxFaults && rr.Float64() < pf && ths[a.T].gate.kind != c20KUnlock {
 			a.F = true
 			faults++
 			if ths[a.T].gate.kind == c20KOrder {
 				a.P = c20OrderProblems[rr.Intn(len(c20OrderProblems)-1)] // not the 5xx one (acmez retries it with pauses)
 			}
+		} else if a.K == "step" && ths[a.T].gate.kind == c20KUnlock && sh.maxFaults > 0 && !unlockFault && rr.Float64() < 0.04 {
+			a.F = true // the Unlock fails: logged and ignored by the code; the lock stays held
+			unlockFault = true
 		} else if a.K == "step" && ths[a.T].gate.kind == c20KNewAcct && faults < sh.maxFaults && rr.Float64() < 3*sh.pFault {
 			a.L = true // the CA registers, the response is lost
 			faults++
@@ -1786,6 +1806,7 @@ func runC20(tier string, seed int64, outdir string, replay string) error {
 			cat(stale2, rep(S(1), 15), rep(S(2), 2), one(F(2))),                                   // ... after the account was replaced: reg file
 			cat(stale2, rep(S(1), 15), rep(S(2), 3), one(F(2))),                                   // ... key file
 			cat(stale2, rep(S(1), 13), rep(S(2), 1), one(S(1)), rep(S(2), 4)),                     // 2 queues on the lock while 1 saves the new account
+			cat(stale2, rep(S(1), 6), one(F(1)), rep(S(1), 2), rep(S(2), 2)),                      // the Unlock of the compare-and-delete fails: nobody can register any more
 		} {
 			if err := addHist("concurrent-recreate", email, []int{0, 0, 0}, c20Scripted(sc), map[string]any{"shape": "directed", "variant": i}); err != nil {
 				return err
@@ -1822,6 +1843,8 @@ func runC20(tier string, seed int64, outdir string, replay string) error {
 			cat(one(St(0, 0)), rep(S(0), 5), one(c20Action{K: "crash", T: 0}), one(St(1, 0))),                                                                            // crash between the two Stores
 			cat(one(St(0, 0)), rep(S(0), 4), one(c20Action{K: "crash", T: 0}), one(St(1, 0))),                                                                            // crash after newAccount
 			cat(one(St(0, 0)), rep(S(0), 5), one(St(1, 0)), one(S(1)), rep(S(0), 1), one(S(1)), one(S(1))),                                                               // reader between reg and key
+			cat(one(St(0, 0)), rep(S(0), 6), one(F(0)), one(S(0)), one(St(1, 0))),                                                                                        // the Unlock fails: the account is stored, the lock stays; the next issuance needs no lock
+			cat(one(St(0, 0)), rep(S(0), 4), one(St(1, 0)), one(S(1)), one(F(0)), one(F(0))),                                                                             // Store reg fails, then the Unlock fails: the waiter never gets the lock and gives up
 			cat(one(St(0, 0)), rep(S(0), 3), one(St(1, 0)), one(S(1)), one(c20Action{K: "step", T: 0, L: true})),                                                         // the response of newAccount is lost, with a waiter
 			cat(one(St(0, 0)), rep(S(0), 3), one(c20Action{K: "step", T: 0, L: true}), one(S(0)), one(St(1, 0)), rep(S(1), 3), one(c20Action{K: "step", T: 1, L: true})), // twice
 		} {
